@@ -79,6 +79,12 @@ Fixpoint remove_nth {A : Type} (i : nat) (l : list A) : list A :=
   | S j, x :: t => x :: remove_nth j t
   end.
 
+Fixpoint remove_poll (k : key) (l : list (key * ver)) : list (key * ver) :=
+  match l with
+  | [] => []
+  | (k', v) :: t => if Nat.eqb k' k then t else (k', v) :: remove_poll k t
+  end.
+
 Section Step.
   Variable keep : bool.   (* KeepLatestData *)
   Variable gx : bool.     (* backend PrevData only used when the request's version is still the entry's version *)
@@ -184,10 +190,11 @@ Section Step.
             end
         end
     | APollRemoved k =>
+        (* the backend's answer to the pending request for k says "removed" *)
         match s_ent s k with
-        | None => (s, [])
+        | None => (mkSt (s_ent s) (remove_poll k (s_polls s)) (s_bc s) (s_conn s) (s_sub s) (s_held s), [])
         | Some _ =>
-            (mkSt (upd (s_ent s) k None) (s_polls s) (s_bc s) (upd (s_conn s) k None) (s_sub s)
+            (mkSt (upd (s_ent s) k None) (remove_poll k (s_polls s)) (s_bc s) (upd (s_conn s) k None) (s_sub s)
                   (upd (s_held s) k None),
              match s_conn s k with Some _ => [PRemoved k] | None => [] end)
         end
